@@ -548,3 +548,45 @@ prop(
              + ([("schedulers", 2), ("sh_schedules_ok_and_compared", 1000)] if "b2" in _C19_BUILDS else []),
 )
 
+
+prop(
+    "C13",
+    level="exploration",
+    rule=("history = call/return of send(chan,i), receive(chan,i), close(chan) recorded at the client boundary of the gateway with one "
+          "logical clock, for a seeded case: world (active work {2,4,16} x read_size {1,3,7,16,40,96,2048} x shards {1,2,3}) with k=1..6 "
+          "concurrent channels (the six helper pairs H1->H2 ... H3->H1 in both directions, same step to two peers, two look-alike steps "
+          "between the same peers, shard-to-shard channels of one helper) x message type of 1,2,3,4,5,8,12,14,18,32 bytes (BA8/Fp31, BA16, "
+          "BA20, BA32/Fp32BitPrime, Gf40Bit, BA64/Fp61BitPrime, BA96, BA112, BA144, BA256/Fp25519) x total {1,2,a-1,a,a+1,3a, "
+          "indeterminate+close} x per-channel active-work override (half / double the gateway's) x coordination {none, "
+          "request-before-data, data-before-request, duplex circuit: unit i = send(i), receive(i) on the reverse channel, then a "
+          "barrier per batch of `active` units, as multiplication + batched validation do} x "
+          "seeded send/receive priority orders inside the active window x endpoint per operation or shared x operations as own tasks or "
+          "one task; payload = unique id (channel tag, record) padded to the width. Executors: shuttle random / PCT depth 3 (seeded "
+          "schedulers, several schedules per case) and bounded DFS for one-channel cases with <= 2 records (build b2); tokio paused "
+          "clock with seeded virtual-time jitter; 4-thread tokio stress (wall deadline => paused re-run); deterministic poll scheduler "
+          "enumerating the order of the first polls of all operations of a small channel (all 24 / 720 orders for 1 / 2 records, 720 "
+          "seeded orders for 3 records and for two channels), transport tasks run to idle after every poll or only when nothing is ready. An offline "
+          "checker judges each history: payload of receive(chan,i) == payload handed to send(chan,i) and not before that call; a wrong "
+          "payload is classified by its owner (other record / other step / other peer / other shard); receive(total) = EndOfStream and "
+          "not before all sends (or close) were called; send(i>=total) = TooManyRecords; legal operations return Ok; the workload "
+          "completes (shuttle deadlock report / paused-clock quiescence; open operations stay open). A history is distinct by "
+          "(executor, case shape, hash of the order of its events) and non-trivial when it completed and at least one receive was matched"),
+    assumptions=[
+        "both ends keep at most `active` (the channel's active work) operations outstanding: an operation for record i is started only "
+        "while i < lowest unfinished record + active, and every record inside that window is started (sending further ahead may block by design)",
+        "coordination between the two ends (request-before-data / data-before-request) is per record and never withholds a record that is inside the window",
+        "receive(i) for i > total is not probed (the receiver only reports EndOfStream to the request at the read cursor)",
+        "non-completion is decided by shuttle's deadlock report or by quiescence under tokio's paused clock (60 virtual seconds), never by wall time",
+        "in-memory transport (TestWorld); default role assignment",
+    ],
+    builds={"quick": ["b1", "b2"], "thorough": ["b1", "b2"]},
+    shards={"quick": 8, "thorough": 16},
+    min_evaluations={"quick": 30000, "thorough": 300000},
+    must_see=[("widths", 10), ("message_types", 14), ("total_classes", 7), ("channel_kinds", 7), ("actives", 3), ("shard_counts", 3),
+              ("modes", 4), ("executors", 6), ("distinct_schedules", 8000), ("receives_matched", 200000),
+              ("end_of_stream_at_total", 40000), ("too_many_records_rejected", 50000), ("closes_ok", 5000),
+              ("receive_requested_before_send_called", 60000), ("receive_requested_after_send_returned", 120000),
+              ("sends_called_out_of_order", 90000), ("receive_requested_beyond_receiver_capacity", 8000),
+              ("histories_same_gate_to_two_peers", 2000), ("histories_duplex_circuit", 3000),
+              ("histories_with_active_work_override", 9000), ("manual_orders_completed", 2000)],
+)
